@@ -328,4 +328,5 @@ def run(chk):
     # "Flush reports success only after all of this has happened": every configured signal is flushed (shared with C07)
     from . import c07
     c07.end_to_end(chk, P, "C12.flush", only=("R5:OtlpInner::blocking_flush", "R5:Otlp::blocking_flush", "R5:otlp-transport"))
+    common.builder_rules(chk, P, "C12", lambda b: b.crate == "emit_otlp" and ("Builder::" in b.key or "HttpContent::" in b.key), 10)
     return chk
